@@ -8,6 +8,7 @@ package main
 import (
 	"fmt"
 	"os"
+	"os/exec"
 	"path/filepath"
 	"regexp"
 	"sort"
@@ -185,6 +186,16 @@ func (e *env) partLayouts() (cases int) {
 			{"Base.tars", "module Base0\n{\n    struct K\n    {\n        0 require int v;\n    };\n};\n"},
 		},
 	}
+	// one module declared by two files (the including file uses, unqualified and qualified, what the included one declares)
+	layouts["one module split over two files"] = []file{
+		{"Main.tars", "#include \"Types.tars\"\nmodule Shop\n{\n    struct Cart\n    {\n        0 require vector<Item> items;\n        1 optional map<string, Shop::Item> byName;\n        2 optional Kind k = K_B;\n    };\n    interface Store\n    {\n        int put(Item it, out Cart c);\n    };\n};\n"},
+		{"Types.tars", "module Shop\n{\n    enum Kind { K_A, K_B };\n    struct Item\n    {\n        0 require string name;\n        1 optional int qty = 1;\n        2 optional Kind kind = K_B;\n    };\n};\n"},
+	}
+	layouts["one module split over two files, used from a third module"] = []file{
+		{"Main.tars", "#include \"sub/A.tars\"\nmodule User\n{\n    struct U\n    {\n        0 require Shop::Cart c;\n        1 optional Shop::Item i;\n    };\n};\n"},
+		{"sub/A.tars", "#include \"B.tars\"\nmodule Shop\n{\n    struct Cart\n    {\n        0 require vector<Item> items;\n    };\n};\n"},
+		{"sub/B.tars", "module Shop\n{\n    struct Item\n    {\n        0 require string name;\n    };\n};\n"},
+	}
 	var names []string
 	for n := range layouts {
 		names = append(names, n)
@@ -198,7 +209,12 @@ func (e *env) partLayouts() (cases int) {
 			os.MkdirAll(filepath.Dir(p), 0o755)
 			os.WriteFile(p, []byte(f.text), 0o644)
 		}
-		tr := gen.RunTool(e.tars2go, dir, 30*time.Second, "-outdir", "out", "Main.tars")
+		gomod := fmt.Sprintf("module layout\n\ngo 1.21\n\nreplace github.com/TarsCloud/TarsGo => %s\n\nrequire github.com/TarsCloud/TarsGo v0.0.0-00010101000000-000000000000\n", e.repo)
+		os.WriteFile(filepath.Join(dir, "go.mod"), []byte(gomod), 0o644)
+		if sum, err := os.ReadFile(filepath.Join(e.repo, "go.sum")); err == nil {
+			os.WriteFile(filepath.Join(dir, "go.sum"), sum, 0o644)
+		}
+		tr := gen.RunTool(e.tars2go, dir, 30*time.Second, "-outdir", "out", "-module", "layout", "Main.tars")
 		e.addToolRuns(1)
 		var text strings.Builder
 		for _, f := range layouts[name] {
@@ -211,13 +227,36 @@ func (e *env) partLayouts() (cases int) {
 		}
 		// one package per module
 		mods := regexp.MustCompile(`(?m)^module\s+(\w+)`).FindAllStringSubmatch(text.String(), -1)
+		emitted := true
 		for _, m := range mods {
 			if ents, _ := filepath.Glob(filepath.Join(dir, "out", m[1], "*.go")); len(ents) == 0 {
 				e.run.Violation("valid-module-not-emitted:include-layout", fmt.Sprintf("%s: module %s: nothing emitted; files:\n%s", name, m[1], text.String()),
 					replayData{Kind: "layout", Text: text.String(), Sig: "valid-module-not-emitted:include-layout"})
+				emitted = false
 				break
+			}
+		}
+		// the emitted packages compile against the framework
+		if emitted {
+			cmd := exec.Command("go", "build", "./...")
+			cmd.Dir, cmd.Env = dir, goEnv()
+			if outb, err := cmd.CombinedOutput(); err != nil {
+				sig := "generated-code-does-not-compile:include-layout"
+				if strings.Contains(name, "split") {
+					sig += ":module-split-over-files"
+				}
+				e.run.Violation(sig, fmt.Sprintf("%s: go build of the emitted packages fails: %s; files:\n%s", name, firstLines(string(outb), 12), text.String()),
+					replayData{Kind: "layout", Text: text.String(), Sig: sig})
 			}
 		}
 	}
 	return cases
+}
+
+func firstLines(s string, n int) string {
+	l := strings.Split(strings.TrimSpace(s), "\n")
+	if len(l) > n {
+		l = l[:n]
+	}
+	return strings.Join(l, " | ")
 }
